@@ -15,8 +15,22 @@ REQUIRED = [
     "DaeVerif.C19.Props.every_go_type_classified",
     "DaeVerif.C19.Props.shared_maps_are_paired",
     "DaeVerif.C19.Props.go_handles_exist_in_c",
-    "DaeVerif.C19.Props.scalar_map_io_widths",
-    "DaeVerif.C19.Props.go_map_calls_match_c",
+    "DaeVerif.C19.Props.go_map_io_uses_paired_types",
+    "DaeVerif.C19.Props.exchanged_types_wire_exact_partial",
+    "DaeVerif.C19.Props.exchanged_types_wire_exact_full_is_false",
+    "DaeVerif.C19.Props.packed_obligations_derived",
+    "DaeVerif.C19.Props.every_c_const_classified",
+    "DaeVerif.C19.Props.field_literals_agree",
+    "DaeVerif.C19.Props.const_keys_agree",
+    "DaeVerif.C19.Props.param_contents_agree",
+    "DaeVerif.C19.Props.go_native_endian_is_machine_endian",
+    "DaeVerif.C19.Props.conn_consts_now",
+    "DaeVerif.C19.Props.enum_mask_little_endian_partial",
+    "DaeVerif.C19.Props.enum_mask_big_endian_differs",
+    "DaeVerif.C19.Props.dscp_view_any_endian",
+    "DaeVerif.C19.Props.pname_view_any_endian",
+    "DaeVerif.C19.Props.ring_index_little_endian_partial",
+    "DaeVerif.C19.Props.mac_key_bytes",
     "DaeVerif.C19.Props.generator_values_agree",
     "DaeVerif.C19.Props.generator_match_type_index",
     "DaeVerif.C19.Props.generated_files_match_spec",
@@ -73,9 +87,9 @@ def diagnostics(ctx):
         return 0
     c = dict(kv.split("=") for kv in counts[0].split())
     ops = []
-    for k in ("obl", "const", "limit", "map", "scalario", "mapcall"):
+    for k in ("obl", "const", "limit", "map", "mapio", "cclass", "fieldlit", "param", "endian", "wiretype"):
         ops += [f"{k} {i}" for i in range(int(c.get(k, 0)))]
-    ops += ["classify", "handles", "genfiles", "listencheck", "conncheck", "keymodelcheck", "archreport", "wirereport"]
+    ops += ["classify", "handles", "genfiles", "listencheck", "conncheck", "keymodelcheck", "statscheck", "archreport", "wirereport"]
     ans = drv(ctx, ops, "c19diag") or []
     n = 0
     grouped = {}   # layout obligations that fail identically on several GOARCHes are one finding
@@ -267,6 +281,18 @@ def c_side(ctx, gen_out, flow_files):
                 mac = "00000000000000000000" + "%012x" % rng.intn(2 ** 48)
                 cross.append((len(ops), w[0], gokey))
                 ops.append(f"croute le {s16} {d16} {mac}"); inc("croute." + w[0])
+            elif w[0] == "matchset":
+                _, view, val, mtype, img = w
+                cross.append((len(ops), "msview", (view, val, mtype)))
+                ops.append("cdec le match_set " + img); inc("cdec.matchset." + view)
+            elif w[0] == "mackey":
+                _, mac, gokey = w
+                # the kernel callers of route() put the source MAC into bytes 10..15 of mac_be (modelled
+                # by cMacPack, theorem mac_key_bytes); here route() itself is run on that array
+                s16 = "%032x" % rng.intn(2 ** 128)
+                d16 = "%032x" % rng.intn(2 ** 128)
+                cross.append((len(ops), "mackey", gokey))
+                ops.append(f"croute le {s16} {d16} {'00' * 10 + mac}"); inc("croute.mackey")
             elif w[0] == "portrange":
                 _, a, b, enc = w
                 cross.append((len(ops), "portrange", f"{a}-{b}"))
@@ -279,12 +305,14 @@ def c_side(ctx, gen_out, flow_files):
             if w[0] == "conn":
                 goconn[(int(w[1]), w[2], w[3], w[4])] = w[5]
     for ob in range(256):
-        for l4 in (6, 17):
+        for l4 in (6, 17, 1, 58, 0, 255):
+            if l4 not in (6, 17) and ob % 16:
+                continue
             for dport in (53, 80, 0, 65535, 5353, 13568):   # 13568 = 0x3500: 53 in the other byte order
                 for v4 in (0, 1):
                     want = None
                     if dport != 53:
-                        want = goconn.get((ob, "tcp" if l4 == 6 else "udp", "4" if v4 else "6", "unset" if l4 == 6 else "data"))
+                        want = goconn.get((ob, "udp" if l4 == 17 else "tcp", "4" if v4 else "6", "data" if l4 == 17 else "unset"))
                     cross.append((len(ops), "conn", want))
                     ops.append(f"cconn {ob} {l4} {dport} {v4}"); inc("cconn")
     for l4 in (6, 17, 1, 58, 0):
@@ -318,6 +346,17 @@ def c_side(ctx, gen_out, flow_files):
             ok = ("dom=" + want) in got.split()
         elif kind == "lpmhost":
             ok = ("lpm_d=" + want) in got.split()
+        elif kind == "mackey":
+            ok = ("lpm_m=" + want) in got.split()
+        elif kind == "msview":
+            view, val, mtype = want
+            d = dict(kv.split("=", 1) for kv in got.split(";") if "=" in kv)
+            if view == "port_range":
+                a, b = val.split("-")
+                ok = d.get("port_range.port_start") == a and d.get("port_range.port_end") == b
+            else:
+                ok = d.get(view, "").split("|")[0] == val
+            ok = ok and d.get("type") == mtype
         elif kind in ("portrange", "setidx"):
             ok = got == want
         elif kind == "conn":
